@@ -566,7 +566,7 @@ func (p *Authenticator) getOAuthCallback(rw http.ResponseWriter, req *http.Reque
 		return "", HTTPError{Code: http.StatusForbidden, Message: "Missing CSRF token"}
 	}
 	p.csrfStore.ClearCSRF(rw, req)
-	if c.Value != nonce {
+	if nonce == "" || c.Value != nonce {
 		tags = append(tags, "error:csrf_token_mismatch")
 		p.StatsdClient.Incr("application_error", tags, 1.0)
 		logger.WithRemoteAddress(remoteAddr).Error(
